@@ -1,6 +1,7 @@
 """C20 — synthetic generators deliver the requested size, edge count and symmetry."""
 import sys, math
 from common import *  # noqa
+sys.path.insert(0, os.path.join(VERIF, 'translate')); import cores  # noqa: E402
 import seq_common as seqc
 import scipy.stats, scipy.linalg  # noqa  (imported here so that maketoeplitzCIJ's in-function import never runs under the watchdog)
 
@@ -424,7 +425,12 @@ def main():
                        'maketoeplitzCIJ / makefractalCIJ: the float threshold matrix (scaled Gaussian profile, 1/E**ee) is observed in the real run '
                        '(through the array returned by random_sample) and given to the model as exact dyadic rationals; norm.pdf, the float scaling and the float powers are not modelled',
                        'toeplitz runs with more than %d uniform draws are judged by the predicates only (no replay)' % MAX_REPLAY_DRAWS]
+    # T-gen: makeringlatticeCIJ interpreted, makerandCIJdegreesfixed source-pinned (translate/cores.py)
+    ck.cov['cores'] = cores.generate(families=['synth'])
+    for p_ in ck.cov['cores']['problems']:
+        ck.corr_break('core extractor (translate/cores.py)', p_)
     ok = ck.lean_gate(['BctVerif.Props.C20'], extra_modules=['BctVerif.Model.Synth'])
+    ck.lean_gate([], gen_modules=['BctVerif.Gen.CoresSynth'])
     if ck.tier == 'thorough' and ok:
         ck.leanchecker(['BctVerif.Props.C20', 'BctVerif.Model.Synth'])
     probes = []
